@@ -371,3 +371,47 @@ def set_tz(tz):
         return
     os.environ['TZ'] = tz
     time.tzset()
+
+
+# ----------------------------------------------------------------------------------------
+# S-penv : the process environment / global configuration a lifetime runs under
+# ----------------------------------------------------------------------------------------
+
+def gen_process_env(rng):
+    """Drawn by planners (never by executors): configuration of the process that is not emsarray's to choose."""
+    return {
+        'logging_debug': rng.random() < 0.2,            # verbose logging switched on for emsarray (`-vv`, basicConfig(level=DEBUG))
+        'tmpdir_other_fs': rng.random() < 0.15,         # TMPDIR lives on another file system than the data
+        'keep_attrs': rng.choice(['default', 'default', 'default', 'default', True, False]),   # xarray.set_options(keep_attrs=...)
+        'dask_chunk_size': rng.choice(['64B', '256B', '1KiB']),                                # dask array.chunk-size (chunks='auto')
+    }
+
+
+def apply_process_env(penv, ctx, scratch):
+    """Installed in the child before the first op.  Every knob is optional; a missing key leaves the default."""
+    if not penv:
+        return
+    if penv.get('logging_debug'):
+        import io
+        import logging
+        lg = logging.getLogger('emsarray')
+        lg.setLevel(logging.DEBUG)
+        lg.addHandler(logging.StreamHandler(io.StringIO()))
+        lg.propagate = False
+        ctx.emit('probe', name='env_logging_debug')
+    if penv.get('tmpdir_other_fs'):
+        import tempfile
+
+        from . import core
+        other = core.other_fs_tmpdir(scratch)
+        if other is not None:
+            os.environ['TMPDIR'] = other
+            tempfile.tempdir = None
+            ctx.emit('probe', name='env_TMPDIR_on_another_file_system')
+    if penv.get('keep_attrs', 'default') != 'default':
+        import xarray
+        xarray.set_options(keep_attrs=penv['keep_attrs'])
+        ctx.emit('probe', name=f'env_keep_attrs_{penv["keep_attrs"]}')
+    if penv.get('dask_chunk_size'):
+        import dask
+        dask.config.set({'array.chunk-size': penv['dask_chunk_size']})
